@@ -122,21 +122,33 @@ func (r *vRef) evaluable(k, v []byte) bool {
 	return ok
 }
 
+// vIsDecimal: an optional sign followed by one or more decimal digits ("can be converted
+// into integer" of the README, read as a plain decimal integer).
 func vIsDecimal(b []byte) bool {
 	if len(b) == 0 || len(b) > 9 {
 		return false
 	}
-	ok := true
-	for _, c := range b {
+	sign := vOr(b[0] == '+', b[0] == '-')
+	ok := vOr(vAnd(b[0] >= '0', b[0] <= '9'), vAnd(sign, len(b) > 1))
+	for _, c := range b[1:] {
 		ok = vAnd(ok, vAnd(c >= '0', c <= '9'))
 	}
 	return ok
 }
 
+// vDecimalValue: value of a text accepted by vIsDecimal (unspecified otherwise)
 func vDecimalValue(b []byte) int64 {
+	if len(b) == 0 {
+		return 0
+	}
 	var n int64
-	for _, c := range b {
+	first := vIteInt(vAnd(b[0] >= '0', b[0] <= '9'), int(b[0]-'0'), 0)
+	n = int64(first)
+	for _, c := range b[1:] {
 		n = n*10 + int64(c-'0')
+	}
+	if b[0] == '-' { // forks only when the first byte can be a minus sign
+		return -n
 	}
 	return n
 }
